@@ -5,9 +5,11 @@ package transport
 // client-facing connection and returns) is decided here for the code that implements it.
 
 import (
+	"bufio"
 	"errors"
 	"io"
 	"net"
+	"net/http"
 	"strconv"
 	"time"
 
@@ -311,4 +313,92 @@ func VP_C06_legacy_read() {
 	}
 	vpAssert(len(got) == len(stream), "legacy-in-bytes-all-delivered-once")
 	vpAssert(vpEqBytes(got, stream), "legacy-in-bytes-delivered-unchanged-and-in-order")
+}
+
+// ---- NewLegacy over a hijacked connection: the chunked IN body ----
+
+// vpScriptConn delivers a raw byte stream in scripted segments, then EOF.
+type vpScriptConn struct {
+	vpConn
+	segs [][]byte
+	pos  int
+}
+
+func (c *vpScriptConn) Read(b []byte) (int, error) {
+	if c.pos >= len(c.segs) {
+		return 0, io.EOF
+	}
+	n := copy(b, c.segs[c.pos])
+	if n < len(c.segs[c.pos]) {
+		c.segs[c.pos] = c.segs[c.pos][n:]
+	} else {
+		c.pos++
+	}
+	return n, nil
+}
+
+// vpHijackW is the http.ResponseWriter of the RDG_IN_DATA request. As in net/http, the buffered
+// reader handed out by Hijack may already hold body bytes that arrived together with the headers.
+type vpHijackW struct {
+	conn      *vpScriptConn
+	prebuffer bool
+}
+
+func (w *vpHijackW) Header() http.Header         { return http.Header{} }
+func (w *vpHijackW) Write(b []byte) (int, error) { return len(b), nil }
+func (w *vpHijackW) WriteHeader(int)             {}
+func (w *vpHijackW) Hijack() (net.Conn, *bufio.ReadWriter, error) {
+	br := bufio.NewReader(w.conn)
+	if w.prebuffer {
+		br.Peek(1) // the server read the first segment while parsing the request
+	}
+	return w.conn, bufio.NewReadWriter(br, bufio.NewWriter(w.conn)), nil
+}
+
+//vp:property C08 C06
+//vp:set cuts 1 2
+//vp:bounds legacy IN body through the real NewLegacy + ReadPacket + net/http's chunked reader: two HTTP chunks of 1..3 bytes each (first byte of each symbolic) and optionally the terminating chunk; the raw chunked stream reaches the socket in cuts+1 segments at every cut position, independent of chunk boundaries; the first segment already buffered by the HTTP server or not
+//vp:assume net/http hands the hijacker a bufio.Reader that may already hold body bytes (documented for Hijack)
+//vp:reach complete
+func VP_C08_legacy_chunks() {
+	var raw, want []byte
+	for i := 0; i < 2; i++ {
+		is := strconv.Itoa(i)
+		n := vpIntRange("chunklen"+is, 1, 3)
+		pl := []byte{vpU8("b" + is), 'q', 'r'}[:n]
+		raw = append(raw, byte('0'+n), '\r', '\n')
+		raw = append(raw, pl...)
+		raw = append(raw, '\r', '\n')
+		want = append(want, pl...)
+	}
+	if vpBool("terminated") {
+		raw = append(raw, '0', '\r', '\n', '\r', '\n')
+	}
+	conn := &vpScriptConn{}
+	last := 0
+	ncuts := vpParam("cuts")
+	for i := 0; i < ncuts; i++ {
+		c := vpIntRange("cut"+strconv.Itoa(i), last+1, len(raw)-(ncuts-i))
+		conn.segs = append(conn.segs, raw[last:c:c])
+		last = c
+	}
+	conn.segs = append(conn.segs, raw[last:])
+	l, err := NewLegacy(&vpHijackW{conn: conn, prebuffer: vpBool("prebuffered")})
+	vpAssert(err == nil && l != nil, "hijackable-connection-yields-a-transport")
+	if err != nil || l == nil {
+		return
+	}
+	var got []byte
+	for i := 0; i < 12; i++ {
+		n, p, err := l.ReadPacket()
+		vpAssert(n == len(p), "legacy-read-count-equals-the-bytes-returned")
+		got = append(got, p...)
+		if err != nil {
+			break
+		}
+	}
+	vpReach("complete")
+	vpObserveBytes("got", got)
+	vpAssert(len(got) == len(want), "every-body-byte-is-delivered-once")
+	vpAssert(vpEqBytes(got, want), "body-bytes-delivered-unchanged-and-in-order")
 }
